@@ -330,7 +330,15 @@ func (w *world) live(ctx string) bool {
 	p0 := w.probes[0]
 	raw, err := w.syncRetry(p0.ID)
 	if err != nil && isTimeout(err) {
-		w.r.Inconc("liveness sync timed out after: " + ctx)
+		// nobody answered: decide from the state, not from the clock – is
+		// there still a goroutine accepting sync connections?
+		d := stacks()
+		if !strings.Contains(d, "threadedListenForSyncRequests") && w.S != nil {
+			replay["goroutines"] = dumpExcerpt(d)
+			w.r.Violationf("liveness:sync-accept-loop-gone", replay, "sync request for authorized device %d is not answered and no goroutine of the process is in threadedListenForSyncRequests any more: the listening socket is open, nobody accepts – permanent (after: %s)", p0.ID, ctx)
+		} else {
+			w.r.Inconc("liveness sync timed out after: " + ctx)
+		}
 		w.failed = true
 		return false
 	}
